@@ -10,7 +10,7 @@ from hypothesis import strategies as st
 from AegeanTools import fits_tools
 from AegeanTools.CLI import SR6
 from vlib import refs
-from vlib.core import Res, run_check
+from vlib.core import Res, run_check, workdir
 
 PROP = "C15"
 SHARDS = {"quick": 8, "thorough": 16}
@@ -72,7 +72,7 @@ def check_case(c):
     img = make_image(c)
     hdu = make_hdu(c, img)
     h0 = hdu.header.copy()
-    d = tempfile.mkdtemp(prefix="c15_")
+    d = workdir("c15_")
     try:
         src = os.path.join(d, "in.fits")
         cmp_path = os.path.join(d, "cmp.fits")
